@@ -1,6 +1,10 @@
 SPEC_PART = dict(
     props_file="C14_freq",
     legs=[dict(family="freq", focus="malformed", oracles=["no_panic"], profiles=["debug", "release"], n_quick=30, n_thorough=600,
+               panic_is_violation=True),
+          # the DRIFT_LIMIT debug assertion (known finding C14-freq-drift-limit): the op that panics in debug builds is not
+          # compared with the model (mask), the rest of the case is; thorough tier only (the case takes ~40 s)
+          dict(family="freq", focus="drift-image", oracles=[], profiles=["debug", "release"], mask=[0, 2, 3, 12], n_quick=0, n_thorough=1,
                panic_is_violation=True)],
     trusted=["Frequent Items: the modelled panic sites of deserialize are the shift / multiplication by lg_max_map_size, the assertion "
              "lg_cur <= lg_max, the purge path of the update loop; u64 overflow of the loaded counters is excluded by the validated "
